@@ -409,6 +409,35 @@ def structLine (args : List String) : String :=
         | .ok vs => "ok " ++ showSV (.list vs)
         | .error e => e.show
 
+/-- `dstruct <T|N|V|W><mask> a*`: constructor and every accessor of a struct / enum variant registered through the real
+`#[derive(Steel)]`; the numbering of tuple accessors is the one read from steel-derive on this run -/
+def dstructLine (ty : String) (args : List String) : String :=
+  let fields : List Ty := [.int .i32, .string, .vec (.int .u8), .opt .bool]
+  let kind := (ty.take 1).toString
+  let mask := (ty.drop 1).toString.toList
+  if mask.length != 4 || !mask.all (fun c => c == '0' || c == '1') || !["T", "N", "V", "W"].contains kind then "bad parse"
+  else
+  let ign : List Bool := mask.map (fun c => c == '1')
+  let num : GetterNumbering := match kind with
+    | "T" => genTupleStructGetters
+    | "V" => genTupleVariantGetters
+    | _ => .declared
+  let svs := args.map (fun a => full (parseSV a.toList))
+  if svs.any (fun r => match r with | .ok _ _ => false | _ => true) then "bad parse"
+  else
+    let vals : List SVal := svs.filterMap (fun r => match r with | .ok v _ => some v | _ => none)
+    match lookupIdx .none fields.length with
+    | none => "unsupported"
+    | some idxs =>
+      match structCtor tb fields idxs vals with
+      | .error e => e.show
+      | .ok s =>
+        "ok " ++ ";".intercalate ((List.range 4).map (fun k =>
+          s!"{k}=" ++ (match deriveProbe tb num ign s k with
+            | none => "none"
+            | some (.ok v) => showSV v
+            | some (.error e) => e.show)))
+
 def parseHC (h c : String) : Option (Nat × Nat) :=
   match (h.drop 1).toNat?, (c.drop 1).toNat? with
   | some a, some b => if h.startsWith "h" && c.startsWith "c" then some (a, b) else none
@@ -597,6 +626,10 @@ def processLine (pol : Policy) (st : LState × Sticky) (l : String) : (LState ×
       | shape :: args => (st, some (callLine shape args))
       | _ => (st, some "bad parse")
     | "mkstruct" => (st, some (structLine rest))
+    | "dstruct" =>
+      match rest with
+      | ty :: args => (st, some (dstructLine ty args))
+      | _ => (st, some "bad parse")
     | _ => let (st', o) := lendLineS pol st toks; (st', some o)
 
 
